@@ -218,7 +218,26 @@ def _interp_aliases(fn: ast.AST) -> Set[str]:
     return out
 
 
+def check_trace_drives_given(repo: Repo, rep: Report, rule: str = "C09.trace-passive"):
+    """The tracer steps the interpreter object it was handed - not a copy or a fresh one.  The caller (cli.main) reads the
+    variable counter off ITS interpreter after tracing; a tracer that works on another object leaves that one un-run, so
+    the next stacked pickle starts again at _var0 and the traced program differs from the untraced one."""
+    c = repo.cls("fickling.tracing.Trace")
+    init = c.method("__init__")
+    if init is None:
+        raise AnalysisError("Trace.__init__ not found")
+    ps = [p for p in init.params() if p != "self"]
+    stores = [n for n in body_walk(init.node) if isinstance(n, (ast.Assign, ast.AnnAssign)) and n.value is not None and any(dotted(t) == "self.interpreter" for t in store_targets(n))]
+    others = [n for fs in c.methods.values() for f in fs if f is not init for n in body_walk(f.node) if isinstance(n, (ast.Assign, ast.AnnAssign, ast.AugAssign)) and any(dotted(t) == "self.interpreter" for t in store_targets(n))]
+    if len(stores) == 1 and isinstance(stores[0].value, ast.Name) and stores[0].value.id in ps and not others:
+        rep.ok(rule, init.qualname, f"self.interpreter is the interpreter passed in (`{src(stores[0])}`), never re-bound", f"{init.file}:{stores[0].lineno}")
+    else:
+        bad = (stores + others)[0] if (stores + others) else None
+        rep.bad(rule, init.qualname, "traces-another-interpreter", f"Trace does not drive the interpreter object it was given ({'`' + src(bad) + '`' if bad is not None else 'self.interpreter is never set'}): the caller's interpreter is left un-run, its variable counter and module are not those of the traced run", init.file, bad.lineno if bad is not None else init.line)
+
+
 def check_trace(repo: Repo, rep: Report):
+    check_trace_drives_given(repo, rep)
     c = repo.cls("fickling.tracing.Trace")
     file = c.module.relpath
     # ---- no writes to interpreter / pickle state anywhere in the class
@@ -441,10 +460,15 @@ def run(rep: Report, tier: str):
     rep.rule("C09.step-single", "Interpreter.step advances once and runs the opcode once; run() is nothing but repeated step()", 4)
     rep.assume("pickletools.opcodes (CPython's declarative opcode table) is the specification of the pickle VM's stack effects")
     rep.assume("items listed before `mark` in stack_before lie below the mark and survive; mark and everything after it are consumed")
+    # structural rules first: they do not need the opcode summaries and must be reported even when a handler uses an
+    # operation the abstract interpreter does not model
+    check_stack_class(repo, rep)
+    from .c13 import check_class_level_state
+
+    check_class_level_state(repo, rep, rule="C09.stack-class", only={"fickling.fickle.Stack", "fickling.fickle.Interpreter", "fickling.fickle.ModuleBody"})
+    check_trace(repo, rep)
+    check_step(repo, rep)
     sums = all_summaries(repo)
     rep.units = {"opcode_classes": len(sums), "paths": sum(len(s.paths) for s in sums), "pickletools_rows": len(pickletools.opcodes)}
     check_stack_effect(repo, rep, sums)
     check_memo(repo, rep, sums)
-    check_stack_class(repo, rep)
-    check_trace(repo, rep)
-    check_step(repo, rep)
